@@ -164,7 +164,15 @@ ADD8 = {
  "C08": _CTX8, "C09": _CTX8 + " FRONTEND-ANSWER (see C14).", "C15": _CTX8, "C16": _CTX8,
  "C14": _CTX8 + " FRONTEND-ANSWER: an API call of the client front end reports success only from the select arm that received this call's answer; the abandoning (timeout) arm reports an error.",
 }
-for d in (ADD, ADD3, ADD4, ADD5, ADD7, ADD8):
+ADD9 = {
+ "C02": " Round 9: one more normal form for the comparison, used when the plain ones disagree: operands of =, #, +, *, \\cup, \\cap and members of set literals in lexical order, `IF (a # b)` read as the negation of `IF (a = b)`.",
+ "C07": " Round 9: HASHMAP-KEYS (the shared variables of one IncMap are committed / released through the key list).",
+ "C11": " Round 9: TPC-STALE - the receiver skips only a message strictly older than the last one it processed from that sender.",
+ "C13": " Round 9: CRDT-ARM arm-exactly-when-the-section-wrote and ack-counts-only-for-the-state-it-acknowledges (the latter reported a defect of the pinned tree, repaired by fix 4e69691a); CRDT-DIAL (every unconnected peer is dialled on every round).",
+ "C17": " Round 9: FD-HANDSHAKE leaves-only-with-the-stop-token; NESTED-COLLECT (exit reports of nested contexts are received by Close alone).",
+ "C19": " Round 9: FD-DIAL (the dial happens exactly when there is no client or a re-dial was requested), FD-MONITOR (a server goroutine per accepted connection; the state table is written by setState alone).",
+}
+for d in (ADD, ADD3, ADD4, ADD5, ADD7, ADD8, ADD9):
     for k, v in d.items():
         t = CLAIMED[k]
         CLAIMED[k] = (t[0], t[1] + v, t[2], t[3])
